@@ -22,8 +22,91 @@ import (
 
 // Cmd is the command type of the workload.
 type Cmd struct {
-	ID    string `json:"id"`
-	Fails int    `json:"fails"` // the handler fails this many times before succeeding (99 = always)
+	ID      string `json:"id"`
+	Fails   int    `json:"fails"`    // the handler fails this many times before succeeding (99 = always)
+	ErrKind string `json:"err_kind"` // which error value the handler returns when it fails (see handlerError)
+	ErrLen  int    `json:"err_len"`  // length of the "long" error text
+	ZeroRes bool   `json:"zero_res"` // the handler returns the zero Res (with and without an error)
+}
+
+// Bad is a command that cannot be marshalled (JSON has no encoding for a func): sending it always fails.
+type Bad struct {
+	ID string `json:"id"`
+	F  func() `json:"f"`
+}
+
+func (c *Cmd) cmdID() string  { return c.ID }
+func (c *Void) cmdID() string { return c.ID }
+func (c *Bad) cmdID() string  { return c.ID }
+
+// emptyErr is an error type whose text is empty (a status/sentinel type without message).
+type emptyErr struct{ code int }
+
+func (emptyErr) Error() string { return "" }
+
+// error values a failing handler returns
+var errKinds = []string{"named", "named", "named", "named", "empty", "empty", "typed-empty", "space", "blank", "long", "one", "true", "zero"}
+
+func handlerError(c *Cmd, att int) error {
+	switch c.ErrKind {
+	case "empty":
+		return errors.New("")
+	case "typed-empty":
+		return emptyErr{code: att}
+	case "space":
+		return errors.New(" ")
+	case "blank":
+		return errors.New(" \t\n")
+	case "long":
+		return fmt.Errorf("%s handler failed for %s attempt %d", strings.Repeat("e", c.ErrLen), c.ID, att)
+	case "one": // the value of the has-error flag
+		return errors.New("1")
+	case "true":
+		return errors.New("true")
+	case "zero": // the value of the has-error flag of a success
+		return errors.New("0")
+	}
+	return fmt.Errorf("handler failed for %s attempt %d", c.ID, att)
+}
+
+// outcome is what a handler returned for one delivery of a command.
+type outcome struct {
+	cmd     string
+	res     Res
+	hasErr  bool
+	errText string
+}
+
+// faults in the command-sending path (the listener has been started by then)
+var sendFaults = []string{"pub-error", "pub-error", "pub-panic", "closed-pubsub", "closed-pubsub", "onsend-error", "onsend-panic", "marshal-error", "topic-error", "bus-error"}
+
+// failingBus is a user-side CommandBus whose send fails.
+type failingBus struct{}
+
+func (failingBus) SendWithModifiedMessage(context.Context, any, func(*message.Message) error) error {
+	return errors.New("scripted command bus failure")
+}
+
+// recBackend decorates the backend handed to SendWithReply / SendWithReplies: it records every listener that was started
+// (ListenForNotifications returned without error) and the reply channel of it - the only place where the channel of a
+// request whose send failed is visible.
+type recBackend struct {
+	inner requestreply.Backend[Res]
+	note  func(cmd string, ch <-chan requestreply.Reply[Res])
+}
+
+func (b *recBackend) ListenForNotifications(ctx context.Context, p requestreply.BackendListenForNotificationsParams) (<-chan requestreply.Reply[Res], error) {
+	ch, err := b.inner.ListenForNotifications(ctx, p)
+	if err == nil {
+		if c, ok := p.Command.(interface{ cmdID() string }); ok {
+			b.note(c.cmdID(), ch)
+		}
+	}
+	return ch, err
+}
+
+func (b *recBackend) OnCommandProcessed(ctx context.Context, p requestreply.BackendOnCommandProcessedParams[Res]) error {
+	return b.inner.OnCommandProcessed(ctx, p)
 }
 
 // Void is a command nobody handles (it is published to a topic without subscriber): no reply ever arrives.
@@ -50,19 +133,24 @@ func init() {
 	vlib.Register(&vlib.Prop{
 		ID:    "C18",
 		Level: "exploration",
-		Cases: func(tier string) int { return vlib.TierN(tier, 480, 48000) },
+		Cases: func(tier string) int { return vlib.TierN(tier, 600, 48000) },
 		Rule: "each case: one GoChannel, Router, cqrs.CommandProcessor with a requestreply handler and a PubSubBackend whose reply topic is shared by all requests; 1..32 concurrent SendWithReplies / SendWithReply calls; " +
-			"handler outcomes per command {result, error, error k times then success (k+1 replies when AckCommandErrors=false), no reply at all (command published to a topic nobody handles)}; in 30% of the cases 2..3 command processors consume the command topic (fan-out: every handler replies, also with AckCommandErrors=true a command then has several replies; <=16 requests then); AckCommandErrors on/off; optional ListenForReplyTimeout (25 ms); " +
+			"handler outcomes per command {result, error, error k times then success (k+1 replies when AckCommandErrors=false), no reply at all (command published to a topic nobody handles)}; " +
+			"the error value of a failing handler is one of {text naming the command, errors.New(\"\"), an error type whose Error() is empty, \" \", blank (space tab newline), 2..20 kB text, \"1\" and \"0\" (the values of the has-error flag), \"true\"}; in 25% of the commands the handler returns the zero Res (with and without an error); in 30% of the cases 2..3 command processors consume the command topic (fan-out: every handler replies, also with AckCommandErrors=true a command then has several replies; <=16 requests then); AckCommandErrors on/off; optional ListenForReplyTimeout (25 ms); " +
 			"caller behaviours {drain then end, late-drain: read nothing until every reply of the case has been produced and the process is quiescent - the listener is then parked on its full reply channel with further replies queued behind it - and only then read everything, read one and end late, never read then end, end right away, SendWithReply}; " +
 			"caller context {no deadline, deadline 1 h (far later than ListenForReplyTimeout), deadline 3..12 ms (sooner than ListenForReplyTimeout)}; the request is ended by {the cancel function, cancelling the caller's own context, nothing at all: the caller relies on ListenForReplyTimeout / its context deadline - always so for callers that stopped reading when one of the two exists, half of the draining callers}; yield injection at the listener/router/gochannel hook points. " +
-			"Oracle: every reply a caller receives carries its own command id (result id or error text); a caller that reads until it has them (promptly or late) gets every reply produced for its command as long as neither a time-out nor a context deadline can end the listening first (reply-missing / reply-lost-while-not-reading when it waits for ever at quiescence); the command message is unsettled when its reply is published and afterwards settled as AckCommandErrors says; " +
-			"after cancel / cancellation of the caller's context (or, when ListenForReplyTimeout is configured or the caller's context has a near deadline, after that alone: such callers never end the request themselves; a reading caller must then see the channel closed - timeout-not-honoured / context-end-not-honoured when it reads for ever at quiescence, the 1 h deadline still pending) and at quiescence OnListenForReplyFinished ran exactly once per request and no listener goroutine remains - checked before the harness touches the reply channel of callers that stopped reading - and then the reply channel is observed closed. " +
+			"Send faults (40% of the cases, there each request with p=0.3, at least one): the first send of the command fails after the listener has been started - {the command publisher returns an error, the command publisher panics, the command bus publishes to a closed GoChannel (the reply topic lives on the open one), OnSend returns an error, OnSend panics, the command cannot be marshalled, GeneratePublishTopic fails, a user CommandBus whose send fails} - through SendWithReply or SendWithReplies as the caller's behaviour says, with every caller context / time-out combination; " +
+			"the caller then does nothing at all (an error: SendWithReply gives it nothing to cancel, with SendWithReplies it ignores the other results by convention), or (30%) sends the command again without fault and goes on as scripted; after a panic it recovers and ends its context late (no retry) or when it is done (retry). " +
+			"Oracle: every reply a caller receives belongs to its own command (the notification the reply exposes is the one the backend published for a delivery of that command; result id / error text when they name a command) and carries exactly what the handler returned for that delivery: error present iff the handler returned one (reply-error-lost / reply-error-invented), the same error text (reply-error-text), the same result (reply-result); a caller that reads until it has them (promptly or late) gets every reply produced for its command as long as neither a time-out nor a context deadline can end the listening first (reply-missing / reply-lost-while-not-reading when it waits for ever at quiescence); the command message is unsettled when its reply is published and afterwards settled as AckCommandErrors says; " +
+			"after cancel / cancellation of the caller's context (or, when ListenForReplyTimeout is configured or the caller's context has a near deadline, after that alone: such callers never end the request themselves; a reading caller must then see the channel closed - timeout-not-honoured / context-end-not-honoured when it reads for ever at quiescence, the 1 h deadline still pending) and at quiescence OnListenForReplyFinished ran exactly once per request and no listener goroutine remains - checked before the harness touches the reply channel of callers that stopped reading - and then the reply channel is observed closed; for a request whose send failed the same is demanded per started listener (a decorator around the backend handed to SendWith* counts the listeners started and keeps their reply channels): OnListenForReplyFinished ran as often as listeners were started (listener-not-finished-after-failed-send) and the channel the caller never got is closed (reply-channel-not-closed-after-failed-send). " +
 			"Non-trivial: >=2 concurrent requests shared the reply topic, or a caller stopped reading with replies pending. Distinct = (program shape incl. per-caller behaviour/context/ending, hook fingerprint).",
 		Assumptions: []string{
 			"replies after cancel/timeout may be ReplyTimeoutError values; they are not attributed to a command",
 			"quiescence is judged only after every pending context deadline below 10 min has passed by 40 ms (context deadlines are invisible in goroutine dumps); the deadlines are read at the boundary: from the context the backend hands to the reply subscriber's Subscribe and from the caller contexts the harness creates; the 1 h deadline never fires within a case, so 'still listening at quiescence' is final",
 			"reply completeness is demanded only when neither ListenForReplyTimeout nor a near context deadline is in play (under load those may legitimately end the listening before a reply arrives)",
 			"GoChannel may reorder the replies of one command: a late-draining caller counts replies, it does not stop at the successful one",
+			"a send that panics leaves the listener running until the caller's context ends (the statement names cancel, context end and time-out as the triggers; after a panic the caller holds only its context): such listeners are judged after the caller ended its context; how many were still running at quiescence before that is reported as a counter only",
+			"a failed send that returns an error must end its listener by itself: the caller is left without anything to cancel (SendWithReply) - judged at quiescence with the caller's context still open",
 		},
 		Run: run,
 	})
@@ -85,6 +173,17 @@ type caller struct {
 	timeouts   int
 	closed     bool
 	sendErr    string
+	errKind    string   // error value of a failing handler
+	errLen     int      // length of the long error text
+	unsent     bool     // the only send of this command fails: no handler ever sees it
+	zeroRes    bool     // the handler returns the zero Res
+	sendFault  string   // fault in the command-sending path of the first attempt ("" = none)
+	retry      bool     // after the failed send the caller sends the command again (no fault then) and behaves as scripted
+	faultErr   string   // error returned by the faulted attempt
+	faultPanic string   // panic that came out of the faulted attempt
+	faultMiss  bool     // the faulted attempt reported neither
+	mismatch   []string // "clause\x00text": replies that do not carry what the handler returned
+	errReplies int      // error replies received (not time-outs)
 	ch         <-chan requestreply.Reply[Res]
 	cancel     func()
 	cancelCtx  func()
@@ -127,7 +226,15 @@ func run(e *vlib.Env) vlib.Result {
 	notifCmd := map[*message.Message]*message.Message{} // reply notification -> the command delivery it answers
 	cmdOf := map[string]string{}                        // operation id -> command id
 	var settledEarly []string
-	handlerCalls := map[string]int{} // handler#command id -> calls
+	started := map[string]int{}                             // command id -> listeners started (ListenForNotifications returned a channel)
+	lchans := map[string][]<-chan requestreply.Reply[Res]{} // command id -> the reply channels of its listeners, in order
+	byDelivery := map[*message.Message]*outcome{}           // command delivery -> what the handler returned for it
+	byNotif := map[string]*outcome{}                        // reply notification UUID -> the handler outcome it has to carry
+	sendFault := map[string]string{}                        // command id -> fault scripted for its first send
+	sendTry := map[string]int{}                             // command id -> sends attempted so far
+	faultMsgs := map[*message.Message]string{}              // command message -> what the command publisher does with it
+	faultsFired := map[string]int{}                         // fault kind -> times it fired
+	handlerCalls := map[string]int{}                        // handler#command id -> calls
 	hkey := func(h int, cmd string) string { return fmt.Sprintf("%d#%s", h, cmd) }
 	var events atomic.Int64
 	runaway := make(chan struct{})
@@ -215,16 +322,16 @@ func run(e *vlib.Env) vlib.Result {
 			if c, ok := p.Command.(*Cmd); ok {
 				cmdOf[string(p.OperationID)] = c.ID
 			}
+			if o := byDelivery[p.CommandMessage]; o != nil {
+				byNotif[msg.UUID] = o
+			}
 			mu.Unlock()
 			return nil
 		},
 		OnListenForReplyFinished: func(ctx context.Context, p requestreply.PubSubBackendSubscribeParams) {
 			cid := ""
-			switch c := p.Command.(type) {
-			case *Cmd:
-				cid = c.ID
-			case *Void:
-				cid = c.ID
+			if c, ok := p.Command.(interface{ cmdID() string }); ok {
+				cid = c.cmdID()
 			}
 			if cid != "" {
 				mu.Lock()
@@ -241,17 +348,88 @@ func run(e *vlib.Env) vlib.Result {
 		res.Verdict, res.Reason = vlib.HarnessError, err.Error()
 		return res
 	}
+	// what SendWithReply / SendWithReplies get: the backend, decorated to see which listeners were started
+	sendBackend := &recBackend{inner: backend, note: func(cmd string, ch <-chan requestreply.Reply[Res]) {
+		mu.Lock()
+		started[cmd]++
+		lchans[cmd] = append(lchans[cmd], ch)
+		mu.Unlock()
+	}}
 	router, _ := message.NewRouter(message.RouterConfig{CloseTimeout: time.Hour}, logger)
 	marshaler := cqrs.JSONMarshaler{}
-	bus, err := cqrs.NewCommandBusWithConfig(ps, cqrs.CommandBusConfig{
+	// the fault scripted for the send that is under way for this command (only its first send is faulted)
+	faultNow := func(cmd any) string {
+		c, ok := cmd.(interface{ cmdID() string })
+		if !ok {
+			return ""
+		}
+		mu.Lock()
+		defer mu.Unlock()
+		if sendTry[c.cmdID()] != 1 {
+			return ""
+		}
+		return sendFault[c.cmdID()]
+	}
+	fired := func(kind string) {
+		mu.Lock()
+		faultsFired[kind]++
+		mu.Unlock()
+	}
+	busConfig := cqrs.CommandBusConfig{
 		GeneratePublishTopic: func(p cqrs.CommandBusGeneratePublishTopicParams) (string, error) {
+			if faultNow(p.Command) == "topic-error" {
+				fired("topic-error")
+				return "", errors.New("scripted GeneratePublishTopic failure")
+			}
 			if _, void := p.Command.(*Void); void {
 				return id + "/nobody-listens", nil
 			}
 			return id + "/commands", nil
 		},
+		OnSend: func(p cqrs.CommandBusOnSendParams) error {
+			switch f := faultNow(p.Command); f {
+			case "onsend-error":
+				fired(f)
+				return errors.New("scripted OnSend failure")
+			case "onsend-panic":
+				fired(f)
+				panic("scripted OnSend panic")
+			case "pub-error", "pub-panic":
+				mu.Lock()
+				faultMsgs[p.Message] = f
+				mu.Unlock()
+			}
+			return nil
+		},
 		Marshaler: marshaler, Logger: logger,
-	})
+	}
+	// the command publisher: fails or panics on the scripted commands
+	cmdPub := &samplingPub{inner: ps, before: func(msgs []*message.Message) error {
+		for _, m := range msgs {
+			mu.Lock()
+			f := faultMsgs[m]
+			delete(faultMsgs, m)
+			mu.Unlock()
+			switch f {
+			case "pub-error":
+				fired(f)
+				return errors.New("scripted command publisher failure")
+			case "pub-panic":
+				fired(f)
+				panic("scripted command publisher panic")
+			}
+		}
+		return nil
+	}, after: func([]*message.Message) {}}
+	bus, err := cqrs.NewCommandBusWithConfig(cmdPub, busConfig)
+	if err != nil {
+		res.Verdict, res.Reason = vlib.HarnessError, err.Error()
+		return res
+	}
+	// a command bus whose Pub/Sub has been closed (its own GoChannel: the reply topic lives on the open one, so the listener starts)
+	deadPS := gochannel.NewGoChannel(gochannel.Config{}, logger)
+	deadPS.Close()
+	deadBus, err := cqrs.NewCommandBusWithConfig(deadPS, busConfig)
 	if err != nil {
 		res.Verdict, res.Reason = vlib.HarnessError, err.Error()
 		return res
@@ -281,8 +459,21 @@ func run(e *vlib.Env) vlib.Result {
 			k := hkey(h, c.ID)
 			handlerCalls[k]++
 			att := handlerCalls[k]
+			out := Res{ID: c.ID, Attempt: att}
+			if c.ZeroRes {
+				out = Res{}
+			}
+			var herr error
+			if att <= c.Fails {
+				herr = handlerError(c, att)
+			}
 			if orig != nil {
 				deliveries[k] = append(deliveries[k], orig)
+				o := &outcome{cmd: c.ID, res: out, hasErr: herr != nil}
+				if herr != nil {
+					o.errText = herr.Error()
+				}
+				byDelivery[orig] = o
 			}
 			mu.Unlock()
 			events.Add(1)
@@ -291,10 +482,7 @@ func run(e *vlib.Env) vlib.Result {
 				id := c.ID
 				runawayOnce.Do(func() { runawayCmd.Store(&id); close(runaway) })
 			}
-			if att <= c.Fails {
-				return Res{ID: c.ID, Attempt: att}, fmt.Errorf("handler failed for %s attempt %d", c.ID, att)
-			}
-			return Res{ID: c.ID, Attempt: att}, nil
+			return out, herr
 		}))
 		if err != nil {
 			res.Verdict, res.Reason = vlib.HarnessError, err.Error()
@@ -388,7 +576,49 @@ func run(e *vlib.Env) vlib.Result {
 		}
 		callers[i] = c
 	}
+	// Dimensions added later; they are drawn after all earlier choices so that those stay what they were for a given seed:
+	// the error value of failing handlers, zero-value results, faults in the command-sending path.
+	faultCase := r.Chance(0.4)
+	faulted, retried := 0, 0
+	for i, c := range callers {
+		c.errKind = errKinds[r.Intn(len(errKinds))]
+		c.errLen = r.Range(2000, 20000)
+		c.zeroRes = r.Chance(0.25)
+		hit, kind, again := r.Chance(0.3), sendFaults[r.Intn(len(sendFaults))], r.Chance(0.3)
+		if !faultCase || c.noReply || !(hit || (faulted == 0 && i == len(callers)-1)) {
+			continue
+		}
+		faulted++
+		c.sendFault = kind
+		sendFault[c.id] = kind
+		c.retry = again && kind != "marshal-error"
+		if c.retry {
+			retried++
+			continue
+		}
+		// nothing is sent: no handler call, no reply; all the caller gets is the error (or the panic)
+		c.unsent = true
+		c.fails, c.expect, c.replyFault = 0, 0, false
+		delete(replyFaults, c.id)
+		switch c.behaviour {
+		case "late-drain", "one-late", "never-read":
+			stoppedReading--
+		}
+		c.endBy = "nothing"
+		if kind == "pub-panic" || kind == "onsend-panic" {
+			c.endBy = "parent" // after recovering from the panic the caller ends its context (late)
+		}
+	}
+	if faulted > 0 {
+		res.Class += "/send-faults"
+	}
 	lateCancel := make(chan struct{}) // closed by the harness once every command has been fully handled
+	clip := func(s string) string {
+		if len(s) > 96 {
+			return fmt.Sprintf("%s...(%d bytes)", s[:96], len(s))
+		}
+		return s
+	}
 	classify := func(c *caller, rep requestreply.Reply[Res]) {
 		events.Add(1)
 		mu.Lock()
@@ -401,21 +631,65 @@ func run(e *vlib.Env) vlib.Result {
 		desc := ""
 		own := false
 		if rep.Error != nil {
-			desc = "error:" + rep.Error.Error()
+			desc = fmt.Sprintf("error:%q", clip(rep.Error.Error()))
 			own = strings.Contains(rep.Error.Error(), " "+c.id+" ")
 		} else {
 			desc = "result:" + rep.HandlerResult.ID
 			own = rep.HandlerResult.ID == c.id
 		}
+		// Which handler call produced this reply: the notification it arrived in (exposed by the reply) is the one the backend
+		// published for one particular command delivery. Needed because neither an empty error text nor a zero result names a command.
+		var exp *outcome
+		if rep.NotificationMessage != nil {
+			exp = byNotif[rep.NotificationMessage.UUID]
+		}
+		if exp != nil {
+			own = exp.cmd == c.id
+		}
 		// a reply carries the result even with an error: both must name this caller's command
 		if rep.HandlerResult.ID != "" && rep.HandlerResult.ID != c.id {
 			own = false
 		}
-		if own {
-			c.got = append(c.got, desc)
-		} else {
+		if !own {
 			c.foreign = append(c.foreign, desc)
+			return
 		}
+		c.got = append(c.got, desc)
+		if rep.Error != nil {
+			c.errReplies++
+		}
+		if exp == nil {
+			return
+		}
+		// "carrying the handler's result and error text"
+		bad := func(clause, f string, a ...any) {
+			c.mismatch = append(c.mismatch, clause+"\x00"+fmt.Sprintf(f, a...))
+		}
+		switch {
+		case exp.hasErr && rep.Error == nil:
+			bad("reply-error-lost", "the handler returned an error (text %q, error kind %s) and result %+v for command %s; the reply the caller got reports success (Error == nil, result %+v)", clip(exp.errText), c.errKind, exp.res, c.id, rep.HandlerResult)
+		case !exp.hasErr && rep.Error != nil:
+			bad("reply-error-invented", "the handler succeeded for command %s (result %+v); the reply the caller got carries the error %q", c.id, exp.res, clip(rep.Error.Error()))
+		case exp.hasErr && rep.Error.Error() != exp.errText:
+			bad("reply-error-text", "the handler's error text for command %s was %q (error kind %s); the reply carries %q", c.id, clip(exp.errText), c.errKind, clip(rep.Error.Error()))
+		}
+		if rep.HandlerResult != exp.res {
+			bad("reply-result", "the handler returned result %+v for command %s (error: %v); the reply carries %+v", exp.res, c.id, exp.hasErr, rep.HandlerResult)
+		}
+	}
+	// attempt is a send whose panic the caller recovers from
+	attempt := func(ctx context.Context, single bool, b requestreply.CommandBus, cmd any) (ch <-chan requestreply.Reply[Res], cancel func(), err error, panicked string) {
+		defer func() {
+			if p := recover(); p != nil {
+				panicked = fmt.Sprint(p)
+			}
+		}()
+		if single {
+			_, err = requestreply.SendWithReply[Res](ctx, b, sendBackend, cmd)
+			return nil, nil, err, ""
+		}
+		ch, cancel, err = requestreply.SendWithReplies[Res](ctx, b, sendBackend, cmd)
+		return ch, cancel, err, ""
 	}
 	for _, c := range callers {
 		go func(c *caller) {
@@ -436,10 +710,71 @@ func run(e *vlib.Env) vlib.Result {
 			mu.Lock()
 			c.cancelCtx = cancelCtx
 			mu.Unlock()
-			var cmd any = &Cmd{ID: c.id, Fails: c.fails}
+			var cmd any = &Cmd{ID: c.id, Fails: c.fails, ErrKind: c.errKind, ErrLen: c.errLen, ZeroRes: c.zeroRes}
 			if c.noReply {
 				cmd = &Void{ID: c.id}
 			}
+			if c.sendFault != "" {
+				// first attempt: the listener starts, then sending the command fails
+				var b requestreply.CommandBus = bus
+				fcmd := cmd
+				switch c.sendFault {
+				case "closed-pubsub":
+					b = deadBus
+				case "bus-error":
+					b = failingBus{}
+				case "marshal-error":
+					fcmd = &Bad{ID: c.id, F: func() {}}
+				}
+				mu.Lock()
+				sendTry[c.id]++
+				mu.Unlock()
+				fch, fcancel, ferr, fpanic := attempt(ctx, c.behaviour == "single", b, fcmd)
+				events.Add(1)
+				mu.Lock()
+				switch {
+				case fpanic != "":
+					c.faultPanic = fpanic
+				case ferr != nil:
+					c.faultErr = ferr.Error()
+				default:
+					c.faultMiss = true
+				}
+				c.cancel = fcancel // used at teardown only
+				mu.Unlock()
+				if fpanic == "" && ferr == nil {
+					// the fault was not reported (the case is inconclusive): release whatever was started
+					if fcancel != nil {
+						fcancel()
+					}
+					if fch != nil {
+						for range fch {
+						}
+					}
+					return
+				}
+				if !c.retry {
+					// An error: the caller of SendWithReply holds nothing it could cancel, the caller of SendWithReplies follows the
+					// convention to ignore the other results. It does nothing any more.
+					// A panic: after recovering the caller can only end its context; it does so late.
+					if fpanic != "" {
+						<-lateCancel
+						mu.Lock()
+						c.endCalled = true
+						mu.Unlock()
+						cancelCtx()
+					}
+					return
+				}
+				if fpanic != "" {
+					// the statement promises the end of a listener once the caller cancelled / its context ended / the time-out passed;
+					// after a panic the caller holds only its context: it ends it when it is done with the second attempt
+					defer cancelCtx()
+				}
+			}
+			mu.Lock()
+			sendTry[c.id]++
+			mu.Unlock()
 			if c.behaviour == "single" {
 				if c.endBy == "parent" {
 					go func() {
@@ -453,7 +788,7 @@ func run(e *vlib.Env) vlib.Result {
 						}
 					}()
 				}
-				rep, err := requestreply.SendWithReply[Res](ctx, bus, backend, cmd)
+				rep, err := requestreply.SendWithReply[Res](ctx, bus, sendBackend, cmd)
 				if err != nil {
 					mu.Lock()
 					c.sendErr = err.Error()
@@ -466,7 +801,7 @@ func run(e *vlib.Env) vlib.Result {
 				mu.Unlock()
 				return
 			}
-			ch, cancel, err := requestreply.SendWithReplies[Res](ctx, bus, backend, cmd)
+			ch, cancel, err := requestreply.SendWithReplies[Res](ctx, bus, sendBackend, cmd)
 			if err != nil {
 				mu.Lock()
 				c.sendErr = err.Error()
@@ -546,7 +881,7 @@ func run(e *vlib.Env) vlib.Result {
 			if c.replyFault {
 				want++
 			}
-			if c.noReply {
+			if c.noReply || c.unsent {
 				want = 0
 			}
 			for h := 0; h < fanout; h++ {
@@ -585,9 +920,14 @@ func run(e *vlib.Env) vlib.Result {
 		return res
 	}
 	// which listeners are parked on a full reply channel right now (quiescent: every reply of the case has been produced)?
-	parkedUnread, lateMulti := 0, 0
+	parkedUnread, lateMulti, panicKept := 0, 0, 0
 	mu.Lock()
 	for _, c := range callers {
+		// observation only (the statement promises termination once the caller's context ends, which has not happened yet): a listener
+		// whose send panicked is still running although the caller holds nothing but its context
+		if c.faultPanic != "" && !c.retry && !c.selfEnding && finished[c.id] < started[c.id] {
+			panicKept++
+		}
 		if (c.behaviour == "late-drain" || c.behaviour == "never-read") && c.expect >= 2 {
 			parkedUnread++
 		}
@@ -632,7 +972,7 @@ func run(e *vlib.Env) vlib.Result {
 	}
 
 	// judgement, part 1: before touching the channels of callers that stopped reading
-	readLate, relyFar := 0, 0
+	readLate, relyFar, closedAfterFault := 0, 0, 0
 	if res.Verdict == "" {
 		mu.Lock()
 		for _, c := range callers {
@@ -659,7 +999,24 @@ func run(e *vlib.Env) vlib.Result {
 			if c.endBy == "rely" && useTimeout && c.ctxKind == "far" {
 				relyFar++
 			}
-			if finished[c.id] != 1 {
+			for _, m := range c.mismatch {
+				clause, text, _ := strings.Cut(m, "\x00")
+				res.Fail(clause, "%s; caller %s, AckCommandErrors=%v; %s", text, c.behaviour, ackErrors, spec)
+			}
+			if c.faultMiss {
+				res.Inconclusive("the scripted fault %s in the send of command %s was reported neither as an error nor as a panic", c.sendFault, c.id)
+			}
+			if c.sendFault != "" {
+				// every listener that was started has to finish, also the one whose command could not be sent: its caller got
+				// nothing but an error, so nobody else will ever end it
+				if finished[c.id] != started[c.id] {
+					how := "returned the error " + fmt.Sprintf("%q", clip(c.faultErr))
+					if c.faultPanic != "" {
+						how = "panicked (" + c.faultPanic + "), the caller recovered and has cancelled its context since"
+					}
+					res.Fail("listener-not-finished-after-failed-send", "command %s: %d listener(s) were started, OnListenForReplyFinished ran %d times at quiescence; the first send (fault %s, %s, context %s) %s, retry=%v; %s", c.id, started[c.id], finished[c.id], c.sendFault, map[bool]string{true: "SendWithReply", false: "SendWithReplies"}[c.behaviour == "single"], c.ctxKind, how, c.retry, spec)
+				}
+			} else if finished[c.id] != 1 {
 				res.Fail("listener-not-finished", "OnListenForReplyFinished ran %d times for command %s (caller behaviour %s, context %s, ended by %s, %d replies produced) at quiescence, want exactly 1; %s", finished[c.id], c.id, c.behaviour, c.ctxKind, c.endBy, c.expect, spec)
 			}
 		}
@@ -737,6 +1094,33 @@ func run(e *vlib.Env) vlib.Result {
 			}
 		}
 	}
+	// ... and so must the reply channel of a listener whose command could not be sent (the caller never got it: only the
+	// decorated backend saw it)
+	if res.Verdict == "" {
+		for _, c := range callers {
+			mu.Lock()
+			var ch <-chan requestreply.Reply[Res]
+			if c.sendFault != "" && !c.faultMiss && len(lchans[c.id]) > 0 {
+				ch = lchans[c.id][0]
+			}
+			mu.Unlock()
+			if ch == nil {
+				continue
+			}
+			ended := make(chan struct{})
+			go func() {
+				for range ch {
+				}
+				close(ended)
+			}()
+			if oc, d := waitT(func() bool { return vlib.IsClosed(ended) }); oc == vlib.Stuck {
+				res.Fail("reply-channel-not-closed-after-failed-send", "reply channel of the listener started for command %s was never closed although sending the command failed (fault %s, context %s; quiescent); %s", c.id, c.sendFault, c.ctxKind, spec)
+				res.Witness = d
+				break
+			}
+			closedAfterFault++
+		}
+	}
 	// teardown
 	mu.Lock()
 	for _, c := range callers {
@@ -766,14 +1150,51 @@ func run(e *vlib.Env) vlib.Result {
 	res.Count("late_drainers_with_3plus_replies", lateMulti)
 	res.Count("replies_read_late", readLate)
 	res.Count("relying_on_timeout_with_far_deadline", relyFar)
+	res.Count("send_faults_scripted", faulted)
+	res.Count("send_fault_retries", retried)
+	res.Count("reply_channels_seen_closed_after_failed_send", closedAfterFault)
+	res.Count("listeners_still_running_after_send_panic_until_context_end", panicKept)
 	kinds := map[string]int{}
+	mu.Lock()
+	for k, v := range faultsFired {
+		kinds["send_fault_fired_"+k] += v
+	}
 	for _, c := range callers {
 		kinds["ctx_"+c.ctxKind]++
 		kinds["end_by_"+c.endBy]++
 		if c.noReply {
 			kinds["no_reply_requests"]++
 		}
+		if c.faultErr != "" {
+			kinds["failed_sends_reported_as_error"]++
+			if c.sendFault == "closed-pubsub" || c.sendFault == "bus-error" || c.sendFault == "marshal-error" {
+				kinds["send_fault_fired_"+c.sendFault]++
+			}
+			if c.behaviour == "single" {
+				kinds["failed_sends_SendWithReply"]++
+			}
+			if !c.selfEnding && !c.retry {
+				kinds["failed_sends_unbounded_context_no_timeout"]++
+			}
+		}
+		if c.faultPanic != "" {
+			kinds["failed_sends_panicked"]++
+		}
+		if c.sendFault != "" {
+			kinds["listeners_started_by_faulted_callers"] += started[c.id]
+		}
+		if c.fails > 0 && !c.noReply && !c.unsent {
+			kinds["failing_handler_error_kind_"+c.errKind]++
+		}
+		if c.zeroRes && !c.noReply && !c.unsent {
+			kinds["commands_with_zero_value_result"]++
+		}
+		kinds["error_replies_received"] += c.errReplies
+		if c.errKind == "empty" || c.errKind == "typed-empty" {
+			kinds["error_replies_with_empty_text_received"] += c.errReplies
+		}
 	}
+	mu.Unlock()
 	for k, v := range kinds {
 		res.Count(k, v)
 	}
@@ -781,9 +1202,18 @@ func run(e *vlib.Env) vlib.Result {
 	shape := spec
 	for _, c := range callers {
 		shape += fmt.Sprintf("|%s:%d:%s:%s:%v", c.behaviour, c.fails, c.ctxKind, c.endBy, c.noReply)
+		if c.fails > 0 {
+			shape += ":" + c.errKind
+		}
+		if c.zeroRes {
+			shape += ":zero"
+		}
+		if c.sendFault != "" {
+			shape += fmt.Sprintf(":%s:%v", c.sendFault, c.retry)
+		}
 	}
 	res.Sig = vlib.Sig(shape, ctl.Fingerprint())
-	res.Sample = map[string]any{"spec": spec, "callers": len(callers), "stopped_reading": stoppedReading, "late_drainers_with_3plus_replies": lateMulti, "relying_on_timeout_with_far_deadline": relyFar}
+	res.Sample = map[string]any{"spec": spec, "callers": len(callers), "send_faults": faulted, "stopped_reading": stoppedReading, "late_drainers_with_3plus_replies": lateMulti, "relying_on_timeout_with_far_deadline": relyFar}
 	return res
 }
 
